@@ -33,7 +33,7 @@ func c08(r *Run) {
 	})
 
 	run := r.fn(w, "C08.R2", E+"Run")
-	r.rule("C08.R2", "K6", "Run registers reader / writer-vs-readers / blocked-on-unexecuted / node hand-over edges under the right conditions", 8)
+	r.rule("C08.R2", "K6", "Run registers reader / writer-vs-readers / blocked-on-unexecuted / node hand-over edges under the right conditions", 10)
 	if run != nil {
 		LT := "p0.nodes[*]#0"
 		RT := "next(range(p0.nodes[*]#0.readers))#2"
@@ -48,6 +48,11 @@ func c08(r *Run) {
 		r.requireEffect(w, "C08.R2", "Run:writer:nodes[k]=t", run, "mapupdate p0.nodes[next(range(p1))#1] = "+T+"*", "next(range(p1))#0")
 		r.requireEffect(w, "C08.R2", "Run:unexecuted:lt.blocked[id]=t", run, "mapupdate "+LT+".blocked[p0.tasks] = "+T, exists, "!"+LT+".executed")
 		r.requireEffect(w, "C08.R2", "Run:unexecuted:dependencies.Add(lt.id)", run, "call (*ago/utils/set.Set).Add(alloc(dependencies), ["+LT+".id])", exists, "!"+LT+".executed")
+		// the writer is blocked on every reader, and every key is registered: both loops run to completion
+		hr := findLoopOver(run, "p0.nodes[next(range(p1))#1]#0.readers")
+		r.check(hr != nil && loopExitsOnlyAtHeader(hr), "C08.R2", "Run:writer:every-reader", w.rel(run.Pos()), "the loop over lt.readers has no early exit", "the loop over the existing node's readers is missing or can exit early (the writer would not wait for every reader)")
+		hk := findLoopOver(run, "p1")
+		r.check(hk != nil && loopExitsOnlyAtHeader(hk), "C08.R2", "Run:every-key", w.rel(run.Pos()), "the loop over the task's keys has no early exit", "the loop over the task's keys is missing or can exit early")
 		// node hand-over happens exactly in the two cases "no node yet" and "exclusive access"
 		nodesUpd := findEffects(run, "mapupdate p0.nodes[next(range(p1))#1] = "+T)
 		nNew, nExcl, nOther := 0, 0, 0
